@@ -41,34 +41,34 @@ type Recv struct {
 }
 
 type mtask struct {
-	id       int
-	steps    []Step
-	resume   chan struct{}
-	parked   bool
-	started  bool
-	done     bool
-	abandon  bool
-	kill     bool
-	where    string
-	outcomes []*Outcome
+	id        int
+	steps     []Step
+	resume    chan struct{}
+	parked    bool
+	started   bool
+	done      bool
+	abandon   bool
+	kill      bool
+	where     string
+	outcomes  []*Outcome
 	callsDone int
-	crash    interface{}
+	crash     interface{}
 }
 
 type taskKilled struct{}
 
 // Bubble is one multi-task run.
 type Bubble struct {
-	W      *World
-	St     *Stats
-	Tasks  []*mtask
-	Chans  []chan eval.Event
-	Recvd  []Recv
-	Taken  []int // the schedule actually executed
-	Steps  int
-	rng    *Rng
-	pos    int
-	Knobs  BubbleKnobs
+	W     *World
+	St    *Stats
+	Tasks []*mtask
+	Chans []chan eval.Event
+	Recvd []Recv
+	Taken []int // the schedule actually executed
+	Steps int
+	rng   *Rng
+	pos   int
+	Knobs BubbleKnobs
 
 	// Setup runs inside the bubble before any task starts: everything tasks
 	// block on (event channels in particular) must be created there, or
@@ -344,6 +344,9 @@ func (b *Bubble) Run(t *testing.T) {
 					o := b.Exec(tk.id, ci, s, yield)
 					tk.outcomes = append(tk.outcomes, o)
 					tk.callsDone++
+					if tk.kill {
+						return // abandoned inside this call
+					}
 				}
 			}()
 		}
